@@ -608,7 +608,9 @@ func TestRun(t *testing.T) {
 			for _, pt := range points {
 				actions := []string{"cancel", "deadline", "close"}
 				// plain udp has no connection the peer could close; a stopped server is just a silent peer
-				if tr != "udp-mem" && tr != "udp" {
+				// (dtls: whether a stopping server's close_notify reaches the client is not guaranteed; without it a
+				// stopped dtls server is a silent peer as well)
+				if tr != "udp-mem" && tr != "udp" && tr != "dtls" {
 					actions = append(actions, "peer-close")
 				}
 				for _, ac := range actions {
